@@ -1522,6 +1522,192 @@ add('c11-x2dec-new-unchecked-argument', 'C11', 'break', [(ENG, """def _x2dec(x, 
         inputs=['HEX'],""", """        function=_x2dec,
         inputs=['HEX', 'places'],""")], expect='C11.errkeep.unused')
 
+# ---------------------------------------------------------------- round-3 rules
+DATE_ = 'formulas/functions/date.py'
+add('c13-defined-name-evaluated-at-load', 'C13', 'break', [(CELL, """    def _output_filters(self):
+        return ()
+""", """    @property
+    def constant(self):
+        if self.func and not self.inputs:
+            value = self.func()
+            if isinstance(value, (int, float)):
+                return value
+
+    def _output_filters(self):
+        return ()
+"""), (EXCEL, """            refs[ref.output] = None
+            self.cells[ref.output] = ref""", """            refs[ref.output] = ref.constant
+            self.cells[ref.output] = ref""")], expect='C13.direct')
+add('c13-clock-pinned-in-module-stack', 'C13', 'break', [(DATE_, """def xnow():
+    d = datetime.datetime.now()""", """_CLOCK = []
+
+
+def _now():
+    return _CLOCK[-1] if _CLOCK else datetime.datetime.now()
+
+
+def xnow():
+    d = _now()""")], expect='C13.nomemo')
+add('c13-benign-clock-through-helper', 'C13', 'benign', [(DATE_, """def xnow():
+    d = datetime.datetime.now()""", """def _now():
+    return datetime.datetime.now()
+
+
+def xnow():
+    d = _now()""")])
+add('c05-whole-array-fast-path', 'C05', 'break', [(F, """                else:
+                    res = np.vectorize(safe_eval, **kw)(*args)""", """                else:
+                    try:
+                        res = func(*(np.asarray(v, float) for v in args))
+                    except (ValueError, TypeError):
+                        res = np.vectorize(safe_eval, **kw)(*args)""")], expect='C05.funnel')
+add('c05-elements-memoised-by-value', 'C05', 'break', [(F, """def clean_values(values):""", """def _memoize(func):
+    memo = {}
+
+    def wrapper(*vals):
+        try:
+            return memo[vals]
+        except KeyError:
+            memo[vals] = res = func(*vals)
+            return res
+        except TypeError:
+            return func(*vals)
+
+    return wrapper
+
+
+def clean_values(values):"""), (F, """                else:
+                    res = np.vectorize(safe_eval, **kw)(*args)""", """                else:
+                    res = np.vectorize(_memoize(safe_eval), **kw)(*args)""")], expect='C05.memo')
+add('c06-intersection-returns-list-of-areas', 'C06', 'break', [(RANGES, """        r = tuple(self.format_range(('name', 'n1', 'n2'), **i)
+                  for i in self.intersect(other))""", """        r = [self.format_range(('name', 'n1', 'n2'), **i)
+             for i in self.intersect(other)]""")], expect='C06.tuple')
+add('c06-benign-union-by-unpacking', 'C06', 'benign', [(RANGES, """        return Ranges(self.ranges + other.ranges, values)""", """        return Ranges((*self.ranges, *other.ranges), values)""")])
+add('c06-value-single-walk-over-blocks', 'C06', 'break', [(RANGES, """        stack, values = list(self.ranges), []
+        while stack:
+            update = False
+            for k, (rng, value) in sorted(self.values.items()):""", """        items, values = sorted(self.values.items()), []
+        for area in reversed(self.ranges):
+            stack = [area]
+            for k, (rng, value) in items:"""), (RANGES, """                if i:
+                    update = True
+                    stack.pop()""", """                if i:
+                    stack.pop()"""), (RANGES, """                    values.append(value[:, c][r])
+            else:
+                if not update:
+                    break
+""", """                    values.append(value[:, c][r])
+""")], expect='C06.value')
+add('c17-cellwrapper-deepcopy-from-shallow-copy', 'C17', 'break', [(CELL, """    def check_cycles(self, cycle):
+        from .excel.cycle import simple_cycles""", """    def __deepcopy__(self, memo):
+        obj = memo[id(self)] = copy.copy(self)
+        obj.parse_args = copy.deepcopy(self.parse_args, memo)
+        obj.parse_kwargs = copy.deepcopy(self.parse_kwargs, memo)
+        return obj
+
+    def check_cycles(self, cycle):
+        from .excel.cycle import simple_cycles""")], expect='C17.hooks')
+_STALE = [(EXCEL, """    def compile(self, inputs, outputs):
+        dsp = self.dsp.shrink_dsp(inputs=inputs, outputs=outputs)""", """    def compile(self, inputs, outputs):
+        last = self.dsp.solution
+        dsp = self.dsp.shrink_dsp(inputs=inputs, outputs=outputs)"""), (EXCEL, """        res = dsp()
+""", """        res = dsp({k: last[k] for k in dsp.data_nodes
+                   if k in last and k not in inp and not dsp.dmap.pred[k]})
+""")]
+add('c08-compile-seeds-constants-from-last-solution', 'C08', 'break', _STALE, expect='C08.history')
+add('c07-compile-seeds-constants-from-last-solution', 'C07', 'break', _STALE, expect='C07.history')
+add('c20-largest-serial-derived-from-datetime-max', 'C20', 'break', [(DATE_, """DATE_ZERO = datetime.datetime(1899, 12, 31)
+""", """DATE_ZERO = datetime.datetime(1899, 12, 31)
+DATE_MAX = (datetime.datetime.max - DATE_ZERO).days
+"""), (DATE_, """    if 60 < serial_number <= 2958465:""", """    if 60 < serial_number <= DATE_MAX:""")], expect='C20.serial')
+add('c20-benign-largest-serial-named-constant', 'C20', 'benign', [(DATE_, """DATE_ZERO = datetime.datetime(1899, 12, 31)
+""", """DATE_ZERO = datetime.datetime(1899, 12, 31)
+DATE_MAX = (datetime.datetime.max - DATE_ZERO).days + 1
+"""), (DATE_, """    if 60 < serial_number <= 2958465:""", """    if 60 < serial_number <= DATE_MAX:""")])
+_ENC = [(EXCEL, """def _book2dict(book):""", """@functools.lru_cache(None)
+def _encode_scalar(value):
+    if isinstance(value, str) and value.startswith('='):
+        return '="%s"' % value.replace('"', '""')
+    return value
+
+
+def _encode_value(value):
+    if isinstance(value, HexValue):
+        return {'type': 'HexValue', 'value': value}
+    try:
+        return _encode_scalar(value)
+    except TypeError:
+        return '#EMPTY' if value == [[sh.EMPTY]] else value
+
+
+def _book2dict(book):"""), (EXCEL, """        nodes = {
+            k: d['value']
+            for k, d in self.dsp.default_values.items()
+            if not isinstance(k, sh.Token)
+        }
+        nodes = {
+            k: isinstance(v, str) and v.startswith('=') and '="%s"' % v.replace(
+                '"', '""'
+            ) or v
+            for k, v in nodes.items()
+        }
+        nodes = {
+            k: '#EMPTY' if v == [[sh.EMPTY]] else v
+            for k, v in nodes.items()
+        }
+        nodes = {
+            k: {
+                'type': 'HexValue', 'value': v
+            } if isinstance(v, HexValue) else v
+            for k, v in nodes.items()
+        }""", """        nodes = {
+            k: _encode_value(d['value'])
+            for k, d in self.dsp.default_values.items()
+            if not isinstance(k, sh.Token)
+        }""")]
+add('c09-export-encoder-memoised-untyped', 'C09', 'break', _ENC, expect='C09.memo')
+add('c09-benign-export-encoder-in-helpers', 'C09', 'benign', [(a, b.replace("@functools.lru_cache(None)\n", ""), c) if False else (a, b, c.replace("@functools.lru_cache(None)\n", "")) for a, b, c in _ENC])
+add('c09-import-reuses-compiled-cells-by-text', 'C09', 'break', [(CELL, """    def compile(self, references=None, context=None):
+        if not self.func and self.builder:
+            func = self.builder.compile(
+                references=references, context=context, **{CELL: self.range}
+            )
+            self.func = wrap_cell_func(func, self._args)
+            self.update_inputs(references=references)
+            self.builder = None
+        return self""", """    def compile(self, references=None, context=None, compiled=None):
+        if not self.func and self.builder:
+            key = self.builder.match.get('name')
+            if compiled is not None and key in compiled:
+                self.func, self.inputs = compiled[key]
+            else:
+                func = self.builder.compile(
+                    references=references, context=context,
+                    **{CELL: self.range}
+                )
+                self.func = wrap_cell_func(func, self._args)
+                self.update_inputs(references=references)
+                if compiled is not None:
+                    compiled[key] = self.func, self.inputs
+            self.builder = None
+        return self""")], expect='C09.cachekey')
+add('c02-blank-parser-factory-writes-through-view', 'C02', 'break', [(OPS, """numeric_wrap = functools.partial(wrap_ufunc)""", """def blank_parser(blank):
+    def parser(*args):
+        for v in args:
+            if hasattr(v, 'view'):
+                v = v.view(Array)
+                v[v == sh.EMPTY] = blank
+            elif v is sh.EMPTY:
+                v = blank
+            yield v
+
+    return parser
+
+
+numeric_wrap = functools.partial(wrap_ufunc, args_parser=blank_parser(0))"""), (OPS, """from . import replace_empty, not_implemented, wrap_func, wrap_ufunc, Error""", """from . import (
+    replace_empty, not_implemented, wrap_func, wrap_ufunc, Error, Array
+)""")], expect='C02.nomut')
+
 if __name__ == '__main__':
     here = os.path.dirname(os.path.abspath(__file__))
     ids = [v['id'] for v in V]
